@@ -50,6 +50,14 @@ class Predicates:
         self.cache[k] = res
         return res
 
+    @staticmethod
+    def _struct_arg(pname, a, env, env2):
+        """an aggregate passed by value (or by pointer): facts known about `arg.x` / `arg->x` become facts about `param.x`"""
+        t = F.src(F.strip(a))
+        for key, v in list(env.items()):
+            if isinstance(key, str) and (key.startswith(t + '.') or key.startswith(t + '->')):
+                env2[pname + key[len(t):]] = v
+
     def _ret_chain(self, stmts, env, universe):
         for b in stmts:
             if b['k'] == 'ReturnStmt':
@@ -130,6 +138,7 @@ class Predicates:
                     env2 = {}
                     for prm, a in zip(g.params, args):
                         env2[prm['n']] = self.eval(a, env, universe)
+                        self._struct_arg(prm['n'], a, env, env2)
                     self._depth = getattr(self, '_depth', 0) + 1
                     try:
                         r = self.eval(F.kids(body[0])[0], {k2: v2 for k2, v2 in env2.items() if v2 is not None}, universe)
@@ -142,6 +151,7 @@ class Predicates:
                     env2 = {}
                     for prm, a in zip(g.params, args):
                         env2[prm['n']] = self.eval(a, env, universe)
+                        self._struct_arg(prm['n'], a, env, env2)
                     env2 = {k2: v2 for k2, v2 in env2.items() if v2 is not None}
                     self._depth = getattr(self, '_depth', 0) + 1
                     try:
